@@ -75,7 +75,7 @@ def trace_items(r, t):
 # the Menu
 
 PREFIXES = [[], ['add_field'], ['filter_fn'], ['filter_none'], ['set_type_a_number'], ['row_inplace', 'acf_format'], ['sort_a_rev'],
-            ['duplicate'], ['source_list'], ['rename_a', 'delete_fields_b'], ['join_keep'], ['unpivot']]
+            ['duplicate'], ['source_list'], ['rename_a', 'delete_fields_b'], ['join_keep'], ['unpivot'], ['paths_in_dirs']]
 SUFFIXES = [[], ['delete_first'], ['delete_last'], ['filter_none'], ['join_inner'], ['concatenate'], ['sort_a'],
             ['delete_first', 'row_inplace'], ['select_fields_a'], ['join_with_self'], ['row_inplace'], ['delete_fields_b', 'row_inplace']]
 OBS = ['printer', 'dump_to_path', 'dump_to_path_json', 'dump_to_zip', 'stream', 'checkpoint', 'finalizer', 'update_stats', 'validate']
@@ -167,6 +167,8 @@ def run_menu_case(item):
         def mk(names):
             m = menu(tmp)
             m['filter_none'] = lambda: DF.filter_rows(condition=lambda r: False)
+            # both resources get the SAME file name under different directories: a dumper must keep them apart
+            m['paths_in_dirs'] = lambda: DF.Flow(DF.update_resource('res_1', path='y2019/sales.csv'), DF.update_resource('res_2', path='y2020/sales.csv'))
             m['join_inner'] = lambda: DF.join('res_1', ['a'], 'res_2', ['a'], dict(b2=dict(name='a', aggregate='count')), mode='inner')
             return [m[n]() for n in names]
         state = {'fin': 0, 'printed': {}, 'validated': 0}
